@@ -333,6 +333,7 @@ def stepLine (m : M) (line : String) : M × String :=
       | ["probe", "ready"] => (m, s!"probe {showNats (s.ready.map (·.item.id))}")
       | ["probe", "mode"] => (m, s!"probe {s.st.name} {if s.noacc then "True" else "False"}")
       | ["probe", "pat"] => (m, s!"probe {s.showPattern}")
+      | ["probe", "stuck"] => (m, s!"probe {s.stuck.length}")
       | ["probe", _] => (m, "probe skip")
       | _ =>
         match cbeltOp w with
